@@ -646,6 +646,7 @@ func c08RunHistory(run *kit.Run, idx int, r *kit.Rand, p c08Plan) { //nolint:goc
 			if round == 0 && p.connect {
 				if !rigWaitConnected(15*time.Second, h.off, h.ans) {
 					run.Inconclusive("connect watchdog")
+					run.Seen("connect_watchdog_histories", fmt.Sprintf("case %d: %s", idx, strings.Join(h.log, ";")))
 
 					break
 				}
